@@ -2,30 +2,112 @@ package nfa
 
 import (
 	"regexp/syntax"
+	"sync"
+	"sync/atomic"
 )
 
 // CompositeSearcher is a specialized searcher for concatenated character class patterns.
-// For patterns like `[a-zA-Z]+[0-9]+`, it uses sequential lookup tables to achieve
-// 5-6x speedup over BoundedBacktracker.
+// For patterns like `[a-zA-Z]+[0-9]+`, it uses per-part lookup tables instead of a
+// general NFA.
 //
-// Algorithm:
-//  1. Each char class part has a [256]bool membership table for O(1) lookup
-//  2. Greedy matching: consume as many characters as possible for each part
-//  3. Backtrack if a part doesn't meet its minimum match requirement
+// The match it reports is the leftmost-first one (the match a greedy backtracking
+// matcher finds, the one regexp reports): the leftmost start position that has a
+// match at all and, from there, every part in turn takes the longest run that still
+// lets the rest of the pattern match.
+//
+// Algorithm (time linear in the haystack for a fixed pattern):
+//
+//  1. Skip to the first byte a match can begin with (unless the pattern matches the
+//     empty string).
+//  2. Greedy attempt from that position: every part takes its longest run (capped at
+//     its maximum). If every part reaches its minimum that way, this is the match:
+//     it is the first alternative greedy backtracking tries.
+//  3. Otherwise simulate all match attempts from that position on at once (simulate):
+//
+// A configuration (i, c) means "c bytes of part i have been consumed", where c is
+// capped at the part's maximum (bounded parts) or at its minimum (unbounded parts:
+// all counts >= min behave alike). From (i, c) the matcher prefers, in this order,
+// to consume one more byte of part i (if c < max), then to go on to (i+1, 0) (if
+// c >= min); leaving the last part completes a match.
+//
+// simulate keeps an ORDERED list of configurations (highest priority first, like a
+// Pike VM): every entry carries the start position of its attempt, a configuration
+// is kept only once per haystack position (the first, i.e. highest-priority,
+// occurrence wins: the future of a configuration does not depend on how it was
+// reached), a new attempt is appended with the lowest priority at every position
+// until a match is known, and when an entry completes the pattern the match is
+// recorded and all entries of lower priority are dropped. It ends when the list is
+// empty; the last recorded match is the leftmost-first match. Each position costs at
+// most one visit per configuration, so a search is
+// O(len(haystack) * configurations), where the number of configurations is the sum
+// of (cap+1) over the parts - a constant of the pattern. The greedy attempt reads no
+// byte the simulation would not read: it is the walk of the highest-priority entry.
+// (A backtracking matcher without a memo is cubic on `[a-z]+[a-z]+[0-9]` and a^n.)
 //
 // Example patterns:
 //   - [a-zA-Z]+[0-9]+  → letters followed by digits
 //   - \d+\s+\w+        → digits, whitespace, word chars
 //   - [a-z]+[A-Z]+     → lowercase then uppercase
 //
-// Thread safety: a *CompositeSearcher is immutable after construction and safe for
-// concurrent use by multiple goroutines. A search keeps all of its state (the
-// position and the run length tried for each part) in local variables of the
-// backtracking recursion; nothing is written to the searcher.
+// Thread safety: a *CompositeSearcher is safe for concurrent use by multiple
+// goroutines. The pattern tables are immutable after construction; the two
+// configuration lists of a simulation are taken from the searcher's scratch pool and
+// returned to it, so a search does not allocate in steady state.
 //
 // Reference: https://github.com/coregx/coregex/issues/72
 type CompositeSearcher struct {
 	parts []*charClassPart
+
+	// configs are the configurations of the simulation: those of part i are
+	// configs[offset_i+c] for c = 0..cap(i), offset_i being the number of
+	// configurations of the parts before i.
+	configs []compositeConfig
+
+	// closures holds the closure lists the configs refer to. The closure of a
+	// configuration (i, c) is what waits for a byte once (i, c) has been entered, in
+	// priority order: (i, c) itself if it may consume another byte, then (i+1, 0),
+	// (i+2, 0), ... as long as the part before has reached its minimum.
+	closures []int32
+
+	// startClosure is the closure of (0, 0): the entries of a new match attempt.
+	// startMatches says that this closure reaches the end of the pattern (the pattern
+	// matches the empty string); startBytes are the bytes the entries accept, i.e.
+	// the bytes a non-empty match can begin with.
+	startClosure []int32
+	startMatches bool
+	startBytes   [256]bool
+
+	// Scratch space of the simulations. One instance is parked in localScratch, a
+	// strong reference that survives garbage collections (a sync.Pool is emptied by
+	// them); concurrent searches take theirs from the pool.
+	localScratch atomic.Pointer[compositeScratch]
+	scratch      sync.Pool // of *compositeScratch
+}
+
+// compositeConfig describes one configuration (i, c) that may consume a byte.
+type compositeConfig struct {
+	// class is the membership table of part i.
+	class *[256]bool
+	// closures[next:nextEnd] is the closure of the configuration entered by
+	// consuming a byte, (i, min(c+1, cap)); nextMatches says that this closure
+	// reaches the end of the pattern (with the lowest priority).
+	next, nextEnd int32
+	nextMatches   bool
+}
+
+// compositeThread is one entry of a configuration list: a configuration and the
+// start position of the match attempt it belongs to.
+type compositeThread struct {
+	cfg   int32
+	start int
+}
+
+// compositeScratch is the mutable state of one simulation.
+type compositeScratch struct {
+	cur, next []compositeThread
+	// mark[cfg] == gen iff cfg is in the list that is being built.
+	mark []uint64
+	gen  uint64
 }
 
 // charClassPart represents one segment of a composite pattern.
@@ -51,8 +133,87 @@ func NewCompositeSearcher(re *syntax.Regexp) *CompositeSearcher {
 		return nil
 	}
 
-	return &CompositeSearcher{
+	c := &CompositeSearcher{
 		parts: parts,
+	}
+	c.buildTables()
+	return c
+}
+
+// bounded reports whether the part has a finite maximum (maxMatch <= 0 encodes
+// "unbounded": 0 from + and *, -1 from {n,}).
+func (p *charClassPart) bounded() bool {
+	return p.maxMatch > 0
+}
+
+// countCap is the largest count the simulation distinguishes for the part.
+func (p *charClassPart) countCap() int {
+	if p.bounded() {
+		return p.maxMatch
+	}
+	return p.minMatch
+}
+
+// buildTables computes the configuration tables of the simulation (see CompositeSearcher).
+func (c *CompositeSearcher) buildTables() {
+	offset := make([]int32, len(c.parts)+1)
+	for i, p := range c.parts {
+		offset[i+1] = offset[i] + int32(p.countCap()) + 1
+	}
+	numConfigs := int(offset[len(c.parts)])
+
+	// closureOf appends the closure of (i, count) to c.closures.
+	closureOf := func(i, count int) (from, to int32, matches bool) {
+		from = int32(len(c.closures))
+		for {
+			part := c.parts[i]
+			if !part.bounded() || count < part.maxMatch {
+				c.closures = append(c.closures, offset[i]+int32(count)) // may consume: stay (preferred)
+			}
+			if count < part.minMatch {
+				break // must consume
+			}
+			i, count = i+1, 0 // minimum met: may leave the part
+			if i == len(c.parts) {
+				matches = true
+				break
+			}
+		}
+		return from, int32(len(c.closures)), matches
+	}
+
+	c.configs = make([]compositeConfig, numConfigs)
+	c.closures = c.closures[:0]
+	for i, p := range c.parts {
+		limit := p.countCap()
+		for count := 0; count <= limit; count++ {
+			cfg := &c.configs[offset[i]+int32(count)]
+			cfg.class = &p.membership
+			entered := count + 1
+			if entered > limit {
+				entered = limit
+			}
+			cfg.next, cfg.nextEnd, cfg.nextMatches = closureOf(i, entered)
+		}
+	}
+
+	from, to, matches := closureOf(0, 0)
+	c.startClosure = append([]int32(nil), c.closures[from:to]...)
+	c.startMatches = matches
+	for _, id := range c.startClosure {
+		for b, ok := range c.configs[id].class {
+			if ok {
+				c.startBytes[b] = true
+			}
+		}
+	}
+
+	c.scratch.New = func() any {
+		return &compositeScratch{
+			cur:  make([]compositeThread, numConfigs),
+			next: make([]compositeThread, numConfigs),
+			mark: make([]uint64, numConfigs),
+		}
 	}
 }
 
@@ -166,7 +327,7 @@ func extractSinglePart(re *syntax.Regexp) *charClassPart {
 
 // IsMatch returns true if the haystack contains a match.
 func (c *CompositeSearcher) IsMatch(haystack []byte) bool {
-	_, _, ok := c.Search(haystack)
+	_, _, ok := c.search(haystack, 0, true)
 	return ok
 }
 
@@ -179,65 +340,163 @@ func (c *CompositeSearcher) Search(haystack []byte) (int, int, bool) {
 // SearchAt finds the first match starting at or after position at.
 // Returns (start, end, found).
 func (c *CompositeSearcher) SearchAt(haystack []byte, at int) (int, int, bool) {
+	return c.search(haystack, at, false)
+}
+
+// search returns the leftmost-first match that starts at or after at; with earliest
+// set only the bool is meaningful (IsMatch). See CompositeSearcher for the algorithm.
+func (c *CompositeSearcher) search(haystack []byte, at int, earliest bool) (int, int, bool) {
 	if len(c.parts) == 0 {
 		return at, at, true // Empty pattern matches empty string
 	}
 
 	n := len(haystack)
+	if at > n {
+		return -1, -1, false
+	}
 
-	// Try to match at each position
-	for pos := at; pos <= n; pos++ {
-		if end, ok := c.matchAt(haystack, pos); ok {
-			return pos, end, true
+	// 1. The first position an attempt can begin at.
+	pos := at
+	if !c.startMatches {
+		for pos < n && !c.startBytes[haystack[pos]] {
+			pos++
+		}
+		if pos >= n {
+			return -1, -1, false
 		}
 	}
 
-	return -1, -1, false
-}
-
-// matchAt tries to match the composite pattern starting at position pos.
-// Returns (end position, success).
-//
-// Uses backtracking to handle overlapping character classes:
-// For pattern `\w+[0-9]+` on "abc123", the first part (\w+) initially
-// consumes all 6 characters. Backtracking gives back digits until
-// [0-9]+ can match its minimum (1 character).
-func (c *CompositeSearcher) matchAt(haystack []byte, pos int) (int, bool) {
-	return c.matchAtWithBacktrack(haystack, pos, 0)
-}
-
-// matchAtWithBacktrack recursively matches parts with backtracking support.
-// The length tried for part partIdx is the local tryLen of this frame: the
-// recursion needs no scratch space outside its own stack frames.
-func (c *CompositeSearcher) matchAtWithBacktrack(haystack []byte, pos int, partIdx int) (int, bool) {
-	if partIdx >= len(c.parts) {
-		// All parts matched successfully
-		return pos, true
+	// 2. Greedy attempt at pos.
+	if end, ok := c.matchGreedy(haystack, pos); ok {
+		return pos, end, true
 	}
 
-	part := c.parts[partIdx]
+	// 3. All attempts from pos on.
+	return c.simulate(haystack, pos, earliest)
+}
+
+// matchGreedy walks the pattern from pos with every part taking its longest run. It
+// fails when a part does not reach its minimum that way (a shorter run of an earlier
+// part may still lead to a match: simulate decides that).
+func (c *CompositeSearcher) matchGreedy(haystack []byte, pos int) (int, bool) {
 	n := len(haystack)
-
-	// Greedy match: consume as many characters as possible
-	maxLen := n - pos
-	if part.maxMatch > 0 && part.maxMatch < maxLen {
-		maxLen = part.maxMatch
+	for _, part := range c.parts {
+		limit := n
+		if part.bounded() && part.maxMatch < n-pos {
+			limit = pos + part.maxMatch
+		}
+		from := pos
+		for pos < limit && part.membership[haystack[pos]] {
+			pos++
+		}
+		if pos-from < part.minMatch {
+			return -1, false
+		}
 	}
+	return pos, true
+}
 
-	// Count how many characters we can consume
-	canConsume := 0
-	for canConsume < maxLen && pos+canConsume < n && part.membership[haystack[pos+canConsume]] {
-		canConsume++
+// simulate runs all match attempts that start at or after at in parallel (see
+// CompositeSearcher) and returns the leftmost-first match; with earliest set it
+// returns as soon as any match is known.
+func (c *CompositeSearcher) simulate(haystack []byte, at int, earliest bool) (int, int, bool) {
+	n := len(haystack)
+	configs, closures := c.configs, c.closures
+
+	// The lists are used at full length (a configuration is listed at most once, so
+	// len(configs) entries suffice); numCur and numNext count their entries.
+	s := c.localScratch.Swap(nil)
+	if s == nil {
+		s = c.scratch.Get().(*compositeScratch)
 	}
+	cur, next := s.cur[:len(configs)], s.next[:len(configs)]
+	numCur, numNext := 0, 0
+	mark, gen := s.mark, s.gen
 
-	// Try from greedy (max) down to minimum, backtracking if next parts fail
-	for tryLen := canConsume; tryLen >= part.minMatch; tryLen-- {
-		if end, ok := c.matchAtWithBacktrack(haystack, pos+tryLen, partIdx+1); ok {
-			return end, true
+	matchStart, matchEnd := -1, -1
+	matched := false
+
+	// cur is the list of position pos; its members are marked with gen.
+	gen++
+	pos := at
+	for {
+		if !matched {
+			if numCur == 0 && !c.startMatches {
+				// No attempt is alive: go to the next byte an attempt can begin with.
+				for pos < n && !c.startBytes[haystack[pos]] {
+					pos++
+				}
+				if pos >= n {
+					break
+				}
+			}
+			// A new attempt begins at pos, with the lowest priority.
+			blocked := false
+			for _, id := range c.startClosure {
+				if mark[id] == gen {
+					// Already listed with a higher priority, and so is the rest of
+					// this closure (it is the closure of id).
+					blocked = true
+					break
+				}
+				mark[id] = gen
+				cur[numCur] = compositeThread{cfg: id, start: pos}
+				numCur++
+			}
+			if c.startMatches && !blocked {
+				matched, matchStart, matchEnd = true, pos, pos
+				if earliest {
+					break
+				}
+			}
+		}
+		if numCur == 0 || pos >= n {
+			break
+		}
+
+		// Consume haystack[pos]: build the list of pos+1 in priority order.
+		b := haystack[pos]
+		gen++
+		numNext = 0
+	threads:
+		for _, t := range cur[:numCur] {
+			cfg := &configs[t.cfg]
+			if !cfg.class[b] {
+				continue
+			}
+			for _, id := range closures[cfg.next:cfg.nextEnd] {
+				if mark[id] == gen {
+					continue threads // listed already, together with the rest of the closure
+				}
+				mark[id] = gen
+				next[numNext] = compositeThread{cfg: id, start: t.start}
+				numNext++
+			}
+			if cfg.nextMatches {
+				// The attempt of t is complete at pos+1. It beats every entry behind
+				// t; the entries in front of t (already in next) go on and replace
+				// this match if one of them completes.
+				matched, matchStart, matchEnd = true, t.start, pos+1
+				break
+			}
+		}
+		cur, next = next, cur
+		numCur = numNext
+		pos++
+		if matched && earliest {
+			break
 		}
 	}
 
-	return -1, false
+	s.gen = gen
+	if !c.localScratch.CompareAndSwap(nil, s) {
+		c.scratch.Put(s)
+	}
+
+	if !matched {
+		return -1, -1, false
+	}
+	return matchStart, matchEnd, true
 }
 
 // IsCompositeCharClassPattern returns true if the pattern is a valid composite char class pattern.
